@@ -1,5 +1,6 @@
 /-
   C15 — I/O failures at any point are contained (DESIGN.md §7 C15).
+  -- properties: C15 C05
 
   The theorems are about `Sf.Faults`: the sample-granular codec loops, the read/write/seek wrappers and the AU/WAV
   header writers running against an ORACLE I/O layer.  `∀ o : Oracle` is "every fault sequence, persistent or
@@ -61,6 +62,11 @@ theorem readTail_hist_le (o : Oracle) (h : H) (hist : Hist) (ty : Ty) (fc : Bool
   unfold readTail
   exact readLoop_hist_le o _ _ _ _ _ _
 
+theorem readTail_hist_extends (o : Oracle) (h : H) (hist : Hist) (ty : Ty) (fc : Bool) (len : Int) :
+    ∃ rest, (readTail o h hist ty fc len).hist = rest ++ hist := by
+  unfold readTail
+  exact readLoop_hist_extends o _ _ _ _ _ _
+
 theorem readCore_hist_le (o : Oracle) (h : H) (hist : Hist) (ty : Ty) (fc : Bool) (len : Int) :
     (readCore o h hist ty fc len).hist.length ≤ hist.length + 1 + len.toNat := by
   unfold readCore
@@ -110,32 +116,72 @@ theorem calls_terminate_seek (o : Oracle) (h : H) (hist : Hist) (f : Int) :
 example : (Faults.stepRead wO0 wH0 [] .s16 false 4).hist.length ≤ ([] : Hist).length + 1 + (reqItems wH0 false 4).toNat :=
   calls_terminate _ _ _ _ _ _
 
+/-! ## whole_frames (sndfile.c) -/
+
+/-- what `whole_frames` returns: a whole number of frames, never more than the codec's count, less than one frame below it,
+    and the same number of whole frames (so the position bookkeeping `count / channels` is unaffected) -/
+theorem wholeFrames_spec (c : Int) (ch : Nat) (op : Mode) (hch : 0 < ch) (hc : 0 ≤ c) :
+    0 ≤ (wholeFrames c ch op).1 ∧ (wholeFrames c ch op).1 ≤ c ∧ (wholeFrames c ch op).1 % ch = 0 ∧
+    (wholeFrames c ch op).1 / ch = c / ch ∧ c - (wholeFrames c ch op).1 < ch := by
+  have hchz : (0 : Int) < (ch : Int) := by exact_mod_cast hch
+  have hm0 := Int.emod_nonneg c (show (ch : Int) ≠ 0 by omega)
+  have hm1 := Int.emod_lt_of_pos c hchz
+  have hdm := Int.mul_ediv_add_emod c ch
+  unfold wholeFrames
+  by_cases h1 : (ch ≤ 1 ∨ c % (ch : Int) = 0)
+  · simp only [h1, if_true]
+    have hz : c % (ch : Int) = 0 := by
+      rcases h1 with h1 | h1
+      · have : ch = 1 := by omega
+        subst this; simp
+      · exact h1
+    refine ⟨hc, Int.le_refl _, hz, ?_, by omega⟩
+    trivial
+  · simp only [h1, if_false]
+    have he : c - c % (ch : Int) = (ch : Int) * (c / ch) := by omega
+    have hq : 0 ≤ (ch : Int) * (c / ch) := Int.mul_nonneg (by omega) (Int.ediv_nonneg hc (by omega))
+    refine ⟨by omega, by omega, ?_, ?_, by omega⟩
+    · rw [he]; exact Int.mul_emod_right _ _
+    · rw [he]; exact Int.mul_ediv_cancel_left _ (by omega)
+
+/-- `whole_frames` leaves psf->last_op alone exactly when the count is a whole number of frames -/
+theorem wholeFrames_lastOp (c : Int) (ch : Nat) (op : Mode) :
+    (wholeFrames c ch op).2 = if ch ≤ 1 ∨ c % ch = 0 then op else .rw := by
+  unfold wholeFrames; split <;> rfl
+
 /-! ## returns_in_range -/
+
+/-- the count after the end clamp of sf_read_* -/
+def clampCount (h : H) (c : Int) : Int := if c ≤ (h.frames - h.rpos) * h.ch then c else (h.frames - h.rpos) * h.ch
+
+theorem readTail_ret_eq (o : Oracle) (h : H) (hist : Hist) (ty : Ty) (fc : Bool) (len : Int) :
+    (readTail o h hist ty fc len).out.ret =
+      (if fc then (wholeFrames (clampCount h (readLoop o h.nb (stageLen h.enc ty false) len.toNat hist [] 0).2.1) h.ch .r).1 / h.ch
+       else (wholeFrames (clampCount h (readLoop o h.nb (stageLen h.enc ty false) len.toNat hist [] 0).2.1) h.ch .r).1) := by
+  unfold readTail clampCount
+  simp only []
+  by_cases hcl : ((readLoop o h.nb (stageLen h.enc ty false) len.toNat hist [] 0).2.1 : Int) ≤ (h.frames - h.rpos) * h.ch
+  · simp only [hcl, if_true]
+  · simp only [hcl, if_false]
 
 theorem readTail_ret_range (o : Oracle) (hc : o.Contract) (h : H) (hist : Hist) (ty : Ty) (fc : Bool) (len : Int)
     (hch : 0 < h.ch) (hpos : h.rpos < h.frames) (hlen : 0 ≤ len) :
     0 ≤ (readTail o h hist ty fc len).out.ret ∧
     (readTail o h hist ty fc len).out.ret ≤ (if fc then len / h.ch else len) := by
   have hl := readLoop_total_le o hc h.nb (stageLen h.enc ty false) len.toNat hist [] 0
-  unfold readTail
-  simp only []
+  rw [readTail_ret_eq]
   generalize (readLoop o h.nb (stageLen h.enc ty false) len.toNat hist [] 0).2.1 = c at hl
   have hc0 : (0 : Int) ≤ (c : Int) := Int.natCast_nonneg c
   have hcl : (c : Int) ≤ len := by omega
   have hchz : (0 : Int) < (h.ch : Int) := by exact_mod_cast hch
   have hfr : 0 ≤ (h.frames - h.rpos) * (h.ch : Int) := Int.mul_nonneg (by omega) (by omega)
-  by_cases hcl2 : (c : Int) ≤ (h.frames - h.rpos) * ↑h.ch
-  · simp only [hcl2, if_true]
-    cases fc
-    · simp; omega
-    · simp only [if_true]
-      exact ⟨Int.ediv_nonneg hc0 (by omega), Int.ediv_le_ediv hchz hcl⟩
-  · simp only [hcl2, if_false]
-    have hlt : (h.frames - h.rpos) * ↑h.ch < (c : Int) := by omega
-    cases fc
-    · simp; omega
-    · simp only [if_true]
-      exact ⟨Int.ediv_nonneg hfr (by omega), Int.ediv_le_ediv hchz (by omega)⟩
+  have hcc : 0 ≤ clampCount h c ∧ clampCount h c ≤ len := by
+    unfold clampCount; split <;> omega
+  have hw := wholeFrames_spec (clampCount h c) h.ch .r hch hcc.1
+  cases fc
+  · simp only [Bool.false_eq_true, if_false]; omega
+  · simp only [if_true]
+    exact ⟨Int.ediv_nonneg hw.1 (by omega), Int.ediv_le_ediv hchz (by omega)⟩
 
 theorem readCore_ret_range (o : Oracle) (hc : o.Contract) (h : H) (hist : Hist) (ty : Ty) (fc : Bool) (len : Int)
     (hch : 0 < h.ch) (hpos : h.rpos < h.frames) (hlen : 0 ≤ len) :
@@ -181,48 +227,126 @@ theorem returns_in_range (o : Oracle) (hc : o.Contract) (h : H) (hist : Hist) (t
 example : 0 ≤ (Faults.stepRead wO0 wH0 [] .s16 false 4).out.ret ∧ (Faults.stepRead wO0 wH0 [] .s16 false 4).out.ret ≤ max 4 0 :=
   returns_in_range wO0 (by intro hist r; cases r <;> simp [Ans.ok, wO0]) wH0 [] .s16 false 4 (by decide)
 
+theorem writeTail_ret_eq (o : Oracle) (h : H) (hist : Hist) (ty : Ty) (fc : Bool) (len : Int) (data : List Int) :
+    (writeTail o h hist ty fc len data).out.ret =
+      (if fc then (wholeFrames (writeLoop o h.nb (stageLen h.enc ty true) (h.enc.encodeAll h.conv ty (data.take len.toNat)) len.toNat hist 0 0).1 h.ch .w).1 / h.ch
+       else (wholeFrames (writeLoop o h.nb (stageLen h.enc ty true) (h.enc.encodeAll h.conv ty (data.take len.toNat)) len.toNat hist 0 0).1 h.ch .w).1) := by
+  unfold writeTail
+  rfl
+
 /-- the write side: the codec's count, hence what sf_write_* / sf_writef_* return, is within [0, requested] -/
 theorem returns_in_range_write (o : Oracle) (hc : o.Contract) (h : H) (hist : Hist) (ty : Ty) (fc : Bool) (len : Int) (data : List Int)
     (hch : 0 < h.ch) (hlen : 0 ≤ len) :
     0 ≤ (writeTail o h hist ty fc len data).out.ret ∧
     (writeTail o h hist ty fc len data).out.ret ≤ (if fc then len / h.ch else len) := by
   have hchz : (0 : Int) < (h.ch : Int) := by exact_mod_cast hch
-  unfold writeTail
+  rw [writeTail_ret_eq]
   have hl := writeLoop_total_le o hc h.nb (stageLen h.enc ty true)
     (h.enc.encodeAll h.conv ty (data.take len.toNat)) len.toNat hist 0 0
-  simp only []
   generalize (writeLoop o h.nb (stageLen h.enc ty true) (h.enc.encodeAll h.conv ty (data.take len.toNat)) len.toNat hist 0 0).1 = c at hl ⊢
   have hc0 : (0 : Int) ≤ (c : Int) := Int.natCast_nonneg c
   have hcl : (c : Int) ≤ len := by omega
+  have hw := wholeFrames_spec (c : Int) h.ch .w hch hc0
   cases fc
-  · simp; omega
+  · simp only [Bool.false_eq_true, if_false]; omega
   · simp only [if_true]
-    exact ⟨Int.ediv_nonneg hc0 (by omega), Int.ediv_le_ediv hchz hcl⟩
+    exact ⟨Int.ediv_nonneg hw.1 (by omega), Int.ediv_le_ediv hchz (by omega)⟩
 
-/-! ## position_matches_count -/
+/-! ## position_matches_count  (KF-C15-PARTIAL-FRAME repaired: full strength, every oracle) -/
 
-/-- for EVERY oracle the read position advances by exactly ⌊items returned / channels⌋ (and by exactly the returned
-    frames for a frame call whose codec count was whole) -/
-theorem readTail_position (o : Oracle) (h : H) (hist : Hist) (ty : Ty) (len : Int) (hch : 0 < h.ch) :
-    (readTail o h hist ty false len).h.rpos = h.rpos + (readTail o h hist ty false len).out.ret / h.ch := by
+/-- the handle's read position after sf_read_*: the clamped codec count in whole frames -/
+theorem readTail_rpos (o : Oracle) (h : H) (hist : Hist) (ty : Ty) (fc : Bool) (len : Int) (hch : 0 < h.ch) :
+    (readTail o h hist ty fc len).h.rpos =
+      h.rpos + clampCount h (readLoop o h.nb (stageLen h.enc ty false) len.toNat hist [] 0).2.1 / h.ch := by
   have hchz : (h.ch : Int) ≠ 0 := by omega
-  unfold readTail
+  unfold readTail clampCount
   simp only []
   split
-  · simp
-  · simp [Int.mul_ediv_cancel _ hchz]
-    omega
+  · rfl
+  · rw [Int.mul_ediv_cancel _ hchz]; omega
 
-/-- the full statement: an item call returns whole frames and the position advances by exactly that many -/
+/-- FULL STATEMENT, for EVERY oracle (inside or outside the callback contract, persistent or single-shot faults): an item call
+    returns a whole number of frames and the read position advances by exactly that many frames; a frame call advances the
+    position by exactly the frames it returns. -/
+theorem position_matches_count (o : Oracle) (h : H) (hist : Hist) (ty : Ty) (len : Int) (hch : 0 < h.ch) (hpos : h.rpos ≤ h.frames) :
+    (readTail o h hist ty false len).out.ret % h.ch = 0 ∧
+    (readTail o h hist ty false len).h.rpos = h.rpos + (readTail o h hist ty false len).out.ret / h.ch ∧
+    (readTail o h hist ty true len).h.rpos = h.rpos + (readTail o h hist ty true len).out.ret := by
+  have hchz : (0 : Int) < (h.ch : Int) := by exact_mod_cast hch
+  rw [readTail_rpos o h hist ty false len hch, readTail_rpos o h hist ty true len hch, readTail_ret_eq, readTail_ret_eq]
+  generalize (readLoop o h.nb (stageLen h.enc ty false) len.toNat hist [] 0).2.1 = c
+  have hcc : 0 ≤ clampCount h c := by
+    unfold clampCount; split
+    · exact Int.natCast_nonneg c
+    · exact Int.mul_nonneg (by omega) (by omega)
+  have hw := wholeFrames_spec (clampCount h c) h.ch .r hch hcc
+  simp only [Bool.false_eq_true, if_false, if_true]
+  exact ⟨hw.2.2.1, by rw [hw.2.2.2.1], by rw [hw.2.2.2.1]⟩
+
+/-- the same statement as a proposition (what `position_matches_count` proves) -/
 def position_matches_count_full : Prop :=
-  ∀ (o : Oracle), o.Contract → ∀ (h : H) (hist : Hist) (ty : Ty) (len : Int), 0 < h.ch → h.rpos < h.frames → 0 ≤ len → len % h.ch = 0 →
+  ∀ (o : Oracle) (h : H) (hist : Hist) (ty : Ty) (len : Int), 0 < h.ch → h.rpos ≤ h.frames →
     (readTail o h hist ty false len).out.ret % h.ch = 0 ∧
     (readTail o h hist ty false len).h.rpos = h.rpos + (readTail o h hist ty false len).out.ret / h.ch
 
-/-- the known-finding class KF-C15-PARTIAL-FRAME: the codec's item count is not a whole number of frames
+theorem position_matches_count_full_holds : position_matches_count_full :=
+  fun o h hist ty len hch hpos => ⟨(position_matches_count o h hist ty len hch hpos).1, (position_matches_count o h hist ty len hch hpos).2.1⟩
+
+/-- the class of the former KF-C15-PARTIAL-FRAME: the codec's item count (after the end clamp) is not a whole number of frames
     (a callback transferred a byte count that ends inside a frame) -/
 def KF.partialFrame (o : Oracle) (h : H) (hist : Hist) (ty : Ty) (len : Int) : Prop :=
-  (readLoop o h.nb (stageLen h.enc ty false) len.toNat hist [] 0).2.1 % h.ch ≠ 0
+  clampCount h (readLoop o h.nb (stageLen h.enc ty false) len.toNat hist [] 0).2.1 % h.ch ≠ 0
+
+instance (o : Oracle) (h : H) (hist : Hist) (ty : Ty) (len : Int) : Decidable (KF.partialFrame o h hist ty len) := by
+  unfold KF.partialFrame; exact inferInstance
+
+/-- exactly in that class psf->last_op is cleared, so that the NEXT call starts with psf->seek (psf, SFM_READ, read_current) -/
+theorem partial_frame_clears_last_op (o : Oracle) (h : H) (hist : Hist) (ty : Ty) (fc : Bool) (len : Int) (hch : 0 < h.ch) :
+    ((readTail o h hist ty fc len).h.lastOp = .r ↔ ¬ KF.partialFrame o h hist ty len) ∧
+    (KF.partialFrame o h hist ty len → (readTail o h hist ty fc len).h.lastOp = .rw) := by
+  unfold KF.partialFrame
+  have hl : (readTail o h hist ty fc len).h.lastOp =
+      (wholeFrames (clampCount h (readLoop o h.nb (stageLen h.enc ty false) len.toNat hist [] 0).2.1) h.ch .r).2 := by
+    unfold readTail clampCount
+    simp only []
+    split <;> rfl
+  rw [hl, wholeFrames_lastOp]
+  generalize clampCount h (readLoop o h.nb (stageLen h.enc ty false) len.toNat hist [] 0).2.1 = c
+  by_cases h1 : c % (h.ch : Int) = 0
+  · simp [h1]
+  · have h2 : ¬ h.ch ≤ 1 := by
+      intro h2
+      have : h.ch = 1 := by omega
+      rw [this] at h1; simp at h1
+    simp [h1, h2]
+
+/-- … and the call after a partial frame re-seeks: its first callback is the seek to `dataoffset + blockwidth * read_current`
+    (`readCore` is what sf_read_* does after its guards) -/
+theorem next_read_seeks_after_partial_frame (o : Oracle) (h : H) (hist : Hist) (ty ty2 : Ty) (fc fc2 : Bool) (len len2 : Int) (hch : 0 < h.ch)
+    (hk : KF.partialFrame o h hist ty len) (hg : ¬ ((readTail o h hist ty fc len).h.bw = 0 ∨ (readTail o h hist ty fc len).h.dataoffset < 0)) :
+    ∃ rest, (readCore o (readTail o h hist ty fc len).h (readTail o h hist ty fc len).hist ty2 fc2 len2).hist =
+      rest ++ [(Req.seek ((readTail o h hist ty fc len).h.dataoffset + (readTail o h hist ty fc len).h.bw * (readTail o h hist ty fc len).h.rpos) 0,
+                o (readTail o h hist ty fc len).hist (Req.seek ((readTail o h hist ty fc len).h.dataoffset + (readTail o h hist ty fc len).h.bw * (readTail o h hist ty fc len).h.rpos) 0))]
+              ++ (readTail o h hist ty fc len).hist := by
+  have hl := (partial_frame_clears_last_op o h hist ty fc len hch).2 hk
+  generalize (readTail o h hist ty fc len).h = h1 at hl hg ⊢
+  generalize (readTail o h hist ty fc len).hist = hist1
+  unfold readCore
+  have hne : (h1.lastOp != Mode.r) = true := by rw [hl]; decide
+  simp only [hne, if_true]
+  have hds : (Faults.defaultSeek o h1 hist1 h1.rpos).2.2 =
+      (Req.seek (h1.dataoffset + h1.bw * h1.rpos) 0, o hist1 (Req.seek (h1.dataoffset + h1.bw * h1.rpos) 0)) :: hist1 := by
+    unfold Faults.defaultSeek
+    simp only [hg, if_false, ioSeek, call]
+    by_cases h3 : (o hist1 (Req.seek (h1.dataoffset + ↑h1.bw * h1.rpos) 0)).n ≠ h1.dataoffset + ↑h1.bw * h1.rpos <;> simp [h3]
+  by_cases h2 : (Faults.defaultSeek o h1 hist1 h1.rpos).1 < 0
+  · simp only [h2, if_true]
+    exact ⟨[], by rw [hds]; rfl⟩
+  · simp only [h2, if_false]
+    obtain ⟨rest, hr⟩ := readTail_hist_extends o (Faults.defaultSeek o h1 hist1 h1.rpos).2.1 (Faults.defaultSeek o h1 hist1 h1.rpos).2.2 ty2 fc2 len2
+    exact ⟨rest, by rw [hr, hds]; simp⟩
+
+/-! ### the rule before the repair (`readTailOld`): the full statement failed, exactly in the class -/
 
 /-- witness: 16-bit stereo, 4 items asked, the read callback delivers 7 of the 8 bytes (inside the contract) -/
 def wH : H := { store := 0, mode := .r, container := .raw, enc := .pcm ⟨16, false, false⟩, big := false, ch := 2, sr := 8000,
@@ -233,49 +357,66 @@ def wO : Oracle := fun _ r => match r with
 
 theorem wO_contract_on_witness : Ans.ok (.read 8) (wO [] (.read 8)) := by simp [Ans.ok, wO]
 
-theorem witness_ret : (readTail wO wH [] .s16 false 4).out.ret = 3 ∧ (readTail wO wH [] .s16 false 4).h.rpos = 1 := by
-  unfold readTail
-  have hl : readLoop wO 2 0 4 [] [] 0 = ([1, 0, 2, 0, 3, 0], 3, [(.read 8, wO [] (.read 8))]) := by
-    rw [readLoop]
-    simp [roundLen, fread, call, wO]
+theorem wO_loop : readLoop wO wH.nb (stageLen wH.enc .s16 false) (4 : Int).toNat [] [] 0 = ([1, 0, 2, 0, 3, 0], 3, [(.read 8, wO [] (.read 8))]) := by
   have hnb : wH.nb = 2 := by decide
   have hst : stageLen wH.enc .s16 false = 0 := by decide
-  simp only [hnb, hst]
   have h4 : (4 : Int).toNat = 4 := by decide
-  rw [h4, hl]
+  rw [hnb, hst, h4, readLoop]
+  simp [roundLen, fread, call, wO]
+
+theorem witness_ret_old_rule : (readTailOld wO wH [] .s16 false 4).out.ret = 3 ∧ (readTailOld wO wH [] .s16 false 4).h.rpos = 1 ∧
+    (readTailOld wO wH [] .s16 false 4).h.lastOp = .r := by
+  unfold readTailOld
+  rw [wO_loop]
   simp [wH]
 
-/-- the unchanged code violates the full statement (DESIGN §8 #14, still present after fc49efc) -/
-theorem position_matches_count_fails :
+/-- the same call on the repaired wrapper: 2 items (one frame), position 1, last_op cleared -/
+theorem witness_ret : (readTail wO wH [] .s16 false 4).out.ret = 2 ∧ (readTail wO wH [] .s16 false 4).h.rpos = 1 ∧
+    (readTail wO wH [] .s16 false 4).h.lastOp = .rw := by
+  unfold readTail
+  rw [wO_loop]
+  simp [wH, wholeFrames]
+
+/-- the code before the repair violated the full statement (DESIGN §8 #14) -/
+theorem position_matches_count_fails_old_rule :
     ¬ (∀ (o : Oracle) (h : H) (hist : Hist) (ty : Ty) (len : Int), 0 < h.ch → h.rpos < h.frames → 0 ≤ len → len % h.ch = 0 →
         (∀ n, Ans.ok (.read n) (o hist (.read n)) ∨ n ≠ 8) →
-        (readTail o h hist ty false len).out.ret % h.ch = 0) := by
+        (readTailOld o h hist ty false len).out.ret % h.ch = 0) := by
   intro hall
   have := hall wO wH [] .s16 4 (by decide) (by decide) (by decide) (by decide)
     (by intro n; by_cases hn : n = 8
         · left; subst hn; exact wO_contract_on_witness
         · right; exact hn)
-  rw [witness_ret.1] at this
+  rw [witness_ret_old_rule.1] at this
   revert this; decide
 
-/-- outside the class the full conclusion holds, for every oracle -/
-theorem position_matches_count (o : Oracle) (h : H) (hist : Hist) (ty : Ty) (len : Int) (hch : 0 < h.ch)
-    (hk : ¬ KF.partialFrame o h hist ty len) :
-    (readTail o h hist ty false len).out.ret % h.ch = 0 ∧
-    (readTail o h hist ty false len).h.rpos = h.rpos + (readTail o h hist ty false len).out.ret / h.ch := by
-  refine ⟨?_, readTail_position o h hist ty len hch⟩
-  unfold KF.partialFrame at hk
-  have hk' : ((readLoop o h.nb (stageLen h.enc ty false) len.toNat hist [] 0).2.1 : Int) % (h.ch : Int) = 0 := by
-    have : (readLoop o h.nb (stageLen h.enc ty false) len.toNat hist [] 0).2.1 % h.ch = 0 := by omega
-    exact_mod_cast this
-  unfold readTail
+/-- the old wrapper: outside the class the conclusion held, inside the class it failed — the class was exact -/
+theorem position_matches_count_exact_old_rule (o : Oracle) (h : H) (hist : Hist) (ty : Ty) (len : Int) :
+    (readTailOld o h hist ty false len).out.ret % h.ch = 0 ↔ ¬ KF.partialFrame o h hist ty len := by
+  unfold KF.partialFrame readTailOld clampCount
+  simp only [Bool.false_eq_true, if_false]
+  split <;> simp
+
+/-- on whole-frame counts the repaired wrapper IS the old one: the repair changes nothing outside the class -/
+theorem readTail_eq_old_outside_class (o : Oracle) (h : H) (hist : Hist) (ty : Ty) (fc : Bool) (len : Int)
+    (hk : ¬ KF.partialFrame o h hist ty len) : readTail o h hist ty fc len = readTailOld o h hist ty fc len := by
+  unfold KF.partialFrame clampCount at hk
+  unfold readTail readTailOld wholeFrames
   simp only []
-  by_cases hcl : ((readLoop o h.nb (stageLen h.enc ty false) len.toNat hist [] 0).2.1 : Int) ≤ (h.frames - h.rpos) * h.ch
-  · simp only [hcl, if_true, Bool.false_eq_true, if_false]; exact hk'
-  · simp only [hcl, if_false, Bool.false_eq_true]; exact Int.mul_emod_left _ _
+  split at hk <;> rename_i hcl
+  · simp only [hcl, if_true]
+    have : (h.ch ≤ 1 ∨ ((readLoop o h.nb (stageLen h.enc ty false) len.toNat hist [] 0).2.1 : Int) % (h.ch : Int) = 0) := Or.inr (by simpa using hk)
+    simp only [this, if_true]
+  · simp only [hcl, if_false]
+    have : (h.ch ≤ 1 ∨ ((h.frames - h.rpos) * (h.ch : Int)) % (h.ch : Int) = 0) := Or.inr (Int.mul_emod_left _ _)
+    simp only [this, if_true]
+
+example : KF.partialFrame wO wH [] .s16 4 := by
+  unfold KF.partialFrame clampCount
+  rw [wO_loop]; decide
 
 example : ¬ KF.partialFrame (fun _ _ => {}) wH [] .s16 4 := by
-  unfold KF.partialFrame
+  unfold KF.partialFrame clampCount
   have : readLoop (fun _ _ => {}) wH.nb (stageLen wH.enc .s16 false) (4 : Int).toNat [] [] 0 = ([], 0, [(.read 8, {})]) := by
     have hnb : wH.nb = 2 := by decide
     have hst : stageLen wH.enc .s16 false = 0 := by decide
@@ -284,11 +425,35 @@ example : ¬ KF.partialFrame (fun _ _ => {}) wH [] .s16 4 := by
     simp [roundLen, fread, call]
   rw [this]; decide
 
-/-- write side, every oracle: the write position advances by exactly ⌊items accepted / channels⌋ -/
-theorem position_matches_count_write (o : Oracle) (h : H) (hist : Hist) (ty : Ty) (len : Int) (data : List Int) :
-    (writeTail o h hist ty false len data).h.wpos = h.wpos + (writeTail o h hist ty false len data).out.ret / h.ch := by
-  unfold writeTail
-  simp
+example : (readTail wO wH [] .s16 false 4).out.ret % wH.ch = 0 := (position_matches_count wO wH [] .s16 4 (by decide) (by decide)).1
+
+/-- write side, FULL STATEMENT, every oracle: an item call reports whole frames, the write position advances by exactly that many
+    frames, and a frame call advances it by exactly the frames it returns -/
+theorem position_matches_count_write (o : Oracle) (h : H) (hist : Hist) (ty : Ty) (len : Int) (data : List Int) (hch : 0 < h.ch) :
+    (writeTail o h hist ty false len data).out.ret % h.ch = 0 ∧
+    (writeTail o h hist ty false len data).h.wpos = h.wpos + (writeTail o h hist ty false len data).out.ret / h.ch ∧
+    (writeTail o h hist ty true len data).h.wpos = h.wpos + (writeTail o h hist ty true len data).out.ret := by
+  rw [writeTail_ret_eq, writeTail_ret_eq]
+  have hp : ∀ fc, (writeTail o h hist ty fc len data).h.wpos =
+      h.wpos + ((writeLoop o h.nb (stageLen h.enc ty true) (h.enc.encodeAll h.conv ty (data.take len.toNat)) len.toNat hist 0 0).1 : Int) / h.ch := by
+    intro fc; unfold writeTail; rfl
+  rw [hp, hp]
+  generalize (writeLoop o h.nb (stageLen h.enc ty true) (h.enc.encodeAll h.conv ty (data.take len.toNat)) len.toNat hist 0 0).1 = c
+  have hw := wholeFrames_spec (c : Int) h.ch .w hch (Int.natCast_nonneg c)
+  simp only [Bool.false_eq_true, if_false, if_true]
+  exact ⟨hw.2.2.1, by rw [hw.2.2.2.1], by rw [hw.2.2.2.1]⟩
+
+/-- the old write wrapper returned the codec's count as it was: a 3-item answer for 2 channels went to the caller -/
+theorem write_partial_frame_old_rule :
+    ∃ (o : Oracle) (h : H) (data : List Int), 0 < h.ch ∧ (writeTailOld o h [] .s16 false 4 data).out.ret % h.ch ≠ 0 := by
+  refine ⟨fun _ r => match r with | .write _ => { n := 7 } | _ => {}, { wH with mode := .w, lastOp := .w }, [1, 2, 3, 4], by decide, ?_⟩
+  unfold writeTailOld
+  have hnb : ({ wH with mode := .w, lastOp := .w } : H).nb = 2 := by decide
+  have hst : stageLen ({ wH with mode := .w, lastOp := .w } : H).enc .s16 true = 0 := by decide
+  have h4 : (4 : Int).toNat = 4 := by decide
+  simp only [hnb, hst, h4]
+  rw [writeLoop]
+  simp [roundLen, fwrite, call, seekFailed, wH]
 
 /-! ## seek_failure_keeps_position -/
 
@@ -359,7 +524,7 @@ example : (writeTail wO0 wH0 [] .s16 false 4 [1, 2, 3, 4]).hist.length ≤ ([] :
 example : 0 ≤ (writeTail wO0 wH0 [] .s16 false 4 [1, 2, 3, 4]).out.ret ∧ (writeTail wO0 wH0 [] .s16 false 4 [1, 2, 3, 4]).out.ret ≤ 4 :=
   returns_in_range_write wO0 (by intro hist r; cases r <;> simp [Ans.ok, wO0]) wH0 [] .s16 false 4 _ (by decide) (by decide)
 example : (writeTail wO0 wH0 [] .s16 false 4 [1, 2, 3, 4]).h.wpos = wH0.wpos + (writeTail wO0 wH0 [] .s16 false 4 [1, 2, 3, 4]).out.ret / wH0.ch :=
-  position_matches_count_write _ _ _ _ _ _
+  (position_matches_count_write _ _ _ _ _ _ (by decide)).2.1
 /-- a seek whose I/O request is answered 0 instead of the offset fails: the hypothesis of `seek_failure_keeps_position` is satisfiable -/
 example : (Faults.stepSeek wO0 wH0 [] 3 0).out.ret = -1 := by
   simp [Faults.stepSeek, Faults.defaultSeek, ioSeek, call, wO0, wH0, H.bw, Enc.nbytes, modeBits, E_SEEK_FAILED]
